@@ -45,6 +45,7 @@ def QRel (l : Label) (c c' : Chan) : Prop :=
     (qmsgs c' = qmsgs c ∧ c'.rx = c.rx) ∨
       (∃ m, mo = some m ∧ qmsgs c' = qmsgs c ++ [m] ∧ c.rx = true ∧ c'.rx = true)
   | .tickBegin _ m => qmsgs c' = m :: qmsgs c ∧ c'.rx = c.rx
+  | .extBegin _ m => qmsgs c' = m :: qmsgs c ∧ c'.rx = c.rx
   | .cbBegin (.handle m) => qmsgs c = m :: qmsgs c' ∧ c'.rx = c.rx
   | .cancel | .taskDone | .taskPanic => qmsgs c' = [] ∧ c'.rx = false
   | _ => qmsgs c' = qmsgs c ∧ c'.rx = c.rx
@@ -84,7 +85,7 @@ theorem stepBegin_spec {w s o h k s'} (hs : stepBegin w s o h k = some s') :
             exact ⟨_, rfl, .inl ⟨rfl, .inr ⟨_, rfl⟩⟩⟩
 
 theorem qrel_of_same {l : Label} {c c' : Chan} (h : c' = c)
-    (h1 : ∀ m, l ≠ .cbBegin (.handle m)) (h2 : ∀ t m, l ≠ .tickBegin t m)
+    (h1 : ∀ m, l ≠ .cbBegin (.handle m)) (h2 : ∀ t m, l ≠ .tickBegin t m ∧ l ≠ .extBegin t m)
     (h3 : l ≠ .cancel ∧ l ≠ .taskDone ∧ l ≠ .taskPanic) : QRel l c c' := by
   subst h
   cases l <;> simp_all [QRel]
@@ -92,7 +93,7 @@ theorem qrel_of_same {l : Label} {c c' : Chan} (h : c' = c)
 /-- a submission of something that is not a user message -/
 theorem qrel_of_enq_other {l : Label} {c c' : Chan} (h : SameOrEnq c c')
     (hq : qmsgs c' = qmsgs c)
-    (h1 : ∀ m, l ≠ .cbBegin (.handle m)) (h2 : ∀ t m, l ≠ .tickBegin t m)
+    (h1 : ∀ m, l ≠ .cbBegin (.handle m)) (h2 : ∀ t m, l ≠ .tickBegin t m ∧ l ≠ .extBegin t m)
     (h3 : l ≠ .cancel ∧ l ≠ .taskDone ∧ l ≠ .taskPanic) : QRel l c c' := by
   have hrx : c'.rx = c.rx := by
     rcases h with h | ⟨e, _, h⟩ <;> simp [h]
@@ -187,6 +188,15 @@ theorem step_q {w s l s'} (hs : step w s l = some s') : QRel l s.chan s'.chan :=
   case timerEnd => exact qrel_of_same (stepTimerEnd_chan hs) (by simp) (by simp) (by simp)
   case tickBegin t m =>
     obtain ⟨tok, rest, hq, hc⟩ := stepTickBegin_detail hs
+    simp only [QRel]
+    rw [hc]
+    exact ⟨by simp [qmsgs, hq, msgNo], rfl⟩
+  case extPush =>
+    refine qrel_of_enq_other (stepExtPush_chan hs) ?_ (by simp) (by simp) (by simp)
+    unfold stepExtPush at hs
+    split at hs <;> (simp at hs; subst hs; first | rfl | exact push_qmsgs_other _ _ _ _ rfl)
+  case extBegin b m =>
+    obtain ⟨tok, rest, hq, hc⟩ := stepExtBegin_detail hs
     simp only [QRel]
     rw [hc]
     exact ⟨by simp [qmsgs, hq, msgNo], rfl⟩
@@ -390,6 +400,14 @@ theorem step_slots {w s l s'} (hs : step w s l = some s') : SRel l s.chan s'.cha
   case timerEnd => exact srel_of_eq (by rw [stepTimerEnd_chan hs])
   case tickBegin t m =>
     obtain ⟨tok, rest, hq, hc⟩ := stepTickBegin_detail hs
+    refine srel_of_eq ?_
+    rw [hc]; simp [qslots, hq, slotNo]
+  case extPush =>
+    refine srel_of_eq (qslots_of_enq_q (stepExtPush_chan hs) ?_)
+    unfold stepExtPush at hs
+    split at hs <;> (simp at hs; subst hs; first | rfl | exact push_qmsgs_other _ _ _ _ rfl)
+  case extBegin b m =>
+    obtain ⟨tok, rest, hq, hc⟩ := stepExtBegin_detail hs
     refine srel_of_eq ?_
     rw [hc]; simp [qslots, hq, slotNo]
   case time => exact srel_of_eq (by rw [stepTime_chan hs])
